@@ -120,6 +120,12 @@ func (t *Trace) StepU(op []uint64, opNeg map[int]bool, obs []uint64) {
 	fmt.Fprintf(t.w, "O %s\nR %s\n", sb.String(), uints(obs))
 	t.Steps++
 }
+
+// StepRaw writes a pre-formatted operation line (for values above 2^63) with an int64 answer.
+func (t *Trace) StepRaw(op string, obs []int64) {
+	fmt.Fprintf(t.w, "O %s\nR %s\n", op, ints(obs))
+	t.Steps++
+}
 func (t *Trace) Comment(s string) { fmt.Fprintf(t.w, "# %s\n", s) }
 func (t *Trace) Close()           { t.w.Flush(); t.f.Close() }
 
